@@ -332,3 +332,66 @@ def certificate(C, d, x):
     nx = float(np.linalg.norm(x))
     nd = float(np.linalg.norm(d))
     return np.asarray(g, dtype=float), rn, nC, nx, nd
+
+
+# ------------------------------------------------------------------------------------------------
+# input representations (dtype / layout / container) of one and the same float64 values
+# ------------------------------------------------------------------------------------------------
+
+INT_REPS = {"int64": np.int64, "int32": np.int32, "uint8": np.uint8}
+EPS32 = float(np.finfo(np.float32).eps)
+
+
+def rep_values(arr, rep, q=20):
+    """float64 values that are exactly representable in representation `rep` (the oracle works on these).
+
+    integer reps: integer-valued arrays are kept (if they fit), others are quantised to q levels of their maximum
+    (hit counts / 0-1 incidence matrices); bool: the support; float32: rounded to single precision."""
+    arr = np.asarray(arr, dtype=float)
+    if rep in INT_REPS:
+        amax = float(np.max(np.abs(arr))) if arr.size else 0.0
+        lim = 255.0 if rep == "uint8" else 2.0e9
+        if amax == 0.0:
+            return arr.copy()
+        if rep == "uint8" and (arr < 0).any():
+            arr = np.abs(arr)
+        if np.array_equal(arr, np.rint(arr)) and amax <= lim:
+            return arr.copy()
+        return np.rint(arr / amax * min(float(q), lim))
+    if rep == "bool":
+        return (arr != 0).astype(float)
+    if rep == "float32":
+        with np.errstate(all="ignore"):
+            return arr.astype(np.float32).astype(np.float64)
+    return arr
+
+
+def represent(vals, rep):
+    """The object handed to the real function: same values, different dtype / memory layout / container."""
+    vals = np.asarray(vals, dtype=float)
+    if rep in (None, "f64"):
+        return vals.copy(order="K")      # always a distinct object: in-place modification by the solver stays visible
+    if rep in INT_REPS:
+        return vals.astype(INT_REPS[rep])
+    if rep == "bool":
+        return vals.astype(bool)
+    if rep == "float32":
+        return vals.astype(np.float32)
+    if rep == "list":
+        return vals.tolist()
+    if rep == "F":
+        return np.asfortranarray(vals)
+    if rep == "T":          # transposed C buffer (Fortran strides without the F flag games)
+        return np.ascontiguousarray(vals.T).T
+    if rep == "view":       # non-contiguous view: every second element of a larger buffer filled with garbage
+        big = np.full(tuple(2 * s for s in vals.shape), -7.25e3)
+        sl = tuple(slice(None, None, 2) for _ in vals.shape)
+        big[sl] = vals
+        return big[sl]
+    raise ValueError("unknown representation %r" % rep)
+
+
+def rep_family(rep):
+    return {"int64": "int", "int32": "int", "uint8": "int", "bool": "bool", "float32": "float32", "list": "list",
+            "F": "strided", "T": "strided", "view": "strided", "npfloat32": "float32", "npint64": "int",
+            "pyint": "int"}.get(rep, rep)
